@@ -255,6 +255,9 @@ func suiteC16(c *ctx) {
 			c.emit("law.C16.history_keeps_store_valid "+id, tf(h.d.Check() == nil && !both && (h.tmpBroken || tmpEmpty(snap))))
 		}
 		h.readers()
+		if h.shm != "" {
+			os.RemoveAll(h.shm)
+		}
 		os.RemoveAll(h.base)
 	}
 }
